@@ -107,6 +107,14 @@ def run(ctx):
     for i, sp in enumerate(rf):
         sp['opts']['refix'] = 2 + i % 4
     specs += rf
+    # the relaxed ("soft") problem of portfolios with binary variables: order books with full execution, storages that may not charge
+    # and discharge at once, plants with fuel consumption when on
+    soft = gen.gen_many(ctx.seed, n // 3, dict(CFG, p_coarse=0.0, p_periodic=0.0, p_full_exec=1.0, p_no_simult=0.8, T=(4, 8), n_assets=(1, 3),
+                                               kinds={'OrderBook': 4, 'Storage': 2, 'SimpleContract': 2, 'Transport': 1}), 'c01soft_')
+    soft += gen.gen_many_plants(ctx.seed, n // 4, dict(CFG, freqs=['h'], units=['h'], tzs=[None], T=(4, 8), p_unaligned_end=0.0, p_profile=0.0, p_fuel=1.0), 'c01softp_')
+    for sp in soft:
+        sp['opts']['optimize'] = {'make_soft_problem': True}
+    specs += soft
     specs = ctx.specs(specs)
     res = C.run_impl('portfolio', specs)
     exprs, owners = [], []
